@@ -15,7 +15,7 @@
 (* empty alts means the input is outside the documented domain (not checked). *)
 EXTENDS Descriptive, Json
 
-CONSTANTS Family,   \* "uni" | "bi" | "ord" | "hist" | "ks" | "roc" | "sort" | "chi" | "mat"
+CONSTANTS Family,   \* "uni" | "ord" | "hist" | "ks" | "bi" | "mat" | "roc" | "sort" | "chi"
           AlphaEnc, \* set of naturals; the data alphabet is {a - Off : a \in AlphaEnc}
           Off,
           MinN, MaxN,   \* sample sizes
@@ -47,7 +47,7 @@ Deg(k) == Pow(2 * M, k)                               \* scale of a degree-k qua
 \* (TLC evaluates constant definitions eagerly at start-up: every case space is guarded by Family)
 SampleSpace == UNION {{[x |-> x, w |-> v.w, nilw |-> v.nilw] : x \in SortedSeqs(n), v \in WVariants(n)}
                    : n \in MinN .. MaxN}
-UniCases == IF Family \in {"uni", "ord", "hist", "ks"} THEN SampleSpace ELSE {}
+UniCases == IF Family \in {"uni", "ord", "hist", "ks", "roc"} THEN SampleSpace ELSE {}
 
 SkewAlts(x, w) ==
     LET W == WSum(w) N2 == CentralN(x, w, 2) N3 == CentralN(x, w, 3) IN
@@ -124,16 +124,120 @@ KsCases == IF Family # "ks" THEN {} ELSE
 KsRec(k) == [fam |-> "ks", x |-> k.x, wx |-> k.wx, nilx |-> k.nilx, y |-> k.y, wy |-> k.wy, nily |-> k.nily,
              ks |-> KS(k.x, k.wx, k.y, k.wy)]
 
+(******************************* family "bi" ********************************)
+\* pairs (x_i, y_i): x sorted (a joint permutation is applied by the harness), y arbitrary
+BiCases == IF Family \notin {"bi", "mat"} THEN {} ELSE
+           UNION {{[x |-> x, y |-> y, w |-> v.w, nilw |-> v.nilw] : x \in SortedSeqs(n), y \in AllSeqs(n), v \in WVariants(n)}
+                  : n \in MinN .. MaxN}
+BiRes(x, y, w) ==
+    LET W == WSum(w) nxx == CentralN(x, w, 2) nyy == CentralN(y, w, 2)
+        swxx == Sum([i \in Idx(x) |-> w[i] * x[i] * x[i]])
+        swyy == Sum([i \in Idx(x) |-> w[i] * y[i] * y[i]])
+    IN
+    << Res("Covariance", <<>>, IF W > 1 THEN <<EvR(Covariance(x, y, w))>> ELSE <<>>, Deg(2)),
+       Res("Correlation", <<>>, IF nxx > 0 /\ nyy > 0 THEN <<EvSqrt(CorrSign(x, y, w), CorrSqFactors(x, y, w))>> ELSE <<>>, 16),
+       Res("LinearRegression.alpha", <<>>, IF nxx > 0 /\ W > 1 THEN <<EvSum(<< <<Mean(y, w)>>, <<RNeg(RegBeta(x, y, w)), Mean(x, w)>> >>)>> ELSE <<>>, Deg(2)),
+       Res("LinearRegression.beta", <<>>, IF nxx > 0 /\ W > 1 THEN <<EvR(RegBeta(x, y, w))>> ELSE <<>>, Deg(2)),
+       Res("LinearRegression.origin", <<>>, IF swxx > 0 THEN <<EvR(RegBetaOrigin(x, y, w))>> ELSE <<>>, Deg(2)),
+       Res("RSquared", <<1, 2>>, IF nyy > 0 THEN <<EvR(RSquared(x, y, w, 1, 2))>> ELSE <<>>, Deg(4)),
+       Res("RSquared", <<0, -1>>, IF nyy > 0 THEN <<EvR(RSquared(x, y, w, 0, -1))>> ELSE <<>>, Deg(4)),
+       Res("RSquaredFrom", <<>>, IF nyy > 0 THEN <<EvR(RSquared(x, y, w, 0, 1))>> ELSE <<>>, Deg(4)),
+       Res("RNoughtSquared", <<2>>, IF swyy > 0 THEN <<EvR(RNoughtSquared(x, y, w, 2))>> ELSE <<>>, Deg(4)),
+       Res("BivariateMoment", <<1, 1>>, <<EvR(BivariateMoment(1, 1, x, y, w))>>, Deg(2)),
+       Res("BivariateMoment", <<2, 1>>, <<EvR(BivariateMoment(2, 1, x, y, w))>>, Deg(3)),
+       Res("BivariateMoment", <<1, 2>>, <<EvR(BivariateMoment(1, 2, x, y, w))>>, Deg(3)),
+       Res("BivariateMoment", <<2, 2>>, <<EvR(BivariateMoment(2, 2, x, y, w))>>, Deg(4)),
+       Res("Kendall", <<>>, IF NoTies(x) /\ NoTies(y) /\ Len(x) > 1 /\ (\A i \in Idx(w) : w[i] > 0)
+                            THEN <<EvR(Kendall(x, y, w))>> ELSE <<>>, 4) >>
+BiRec(k) == [fam |-> "bi", x |-> k.x, y |-> k.y, w |-> k.w, nilw |-> k.nilw, res |-> BiRes(k.x, k.y, k.w)]
+
+(******************************* family "mat" *******************************)
+\* data matrix with columns x, y, z (z_i = x_i * y_i): every entry of CovarianceMatrix /
+\* CorrelationMatrix is the pairwise scalar quantity of the two columns
+MatCols(k) == <<k.x, k.y, [i \in Idx(k.x) |-> k.x[i] * k.y[i]]>>
+MatRec(k) ==
+    LET cols == MatCols(k) w == k.w W == WSum(w) IN
+    [fam |-> "mat", cols |-> cols, w |-> w, nilw |-> k.nilw, sc |-> Pow(M, 4) * 4,
+     cov |-> IF W > 1 THEN [i \in 1 .. 3 |-> [j \in 1 .. 3 |-> EvR(Covariance(cols[i], cols[j], w))]] ELSE <<>>,
+     corr |-> IF W > 1 /\ \A i \in 1 .. 3 : CentralN(cols[i], w, 2) > 0
+              THEN [i \in 1 .. 3 |-> [j \in 1 .. 3 |->
+                      EvSqrt(CorrSign(cols[i], cols[j], w), CorrSqFactors(cols[i], cols[j], w))]]
+              ELSE <<>>]
+
+(******************************* family "roc" *******************************)
+\* y sorted, classes with positive weight on both sides; cutoffs nil (all distinct
+\* values of y, and +Inf) or explicit sorted cutoffs on the half-integer grid.
+\* Numbers with a "2" suffix are doubled (so half-integers are integers); Inf2 is +Inf.
+Inf2 == 1000000
+Grid2(y) == LET lo == 2 * y[1] - 1  hi == 2 * y[Len(y)] + 1 IN [j \in 1 .. hi - lo + 1 |-> lo + j - 1]
+SelSeq(s, P(_)) == LET RECURSIVE f(_)
+                       f(i) == IF i > Len(s) THEN <<>> ELSE (IF P(s[i]) THEN <<s[i]>> ELSE <<>>) \o f(i + 1)
+                   IN f(1)
+CutVariants(y) == LET g == Grid2(y) odd(v) == v % 2 = 1  even(v) == v % 2 = 0 IN
+                  {[nilcut |-> TRUE, cut2 |-> <<>>], [nilcut |-> FALSE, cut2 |-> g],
+                   [nilcut |-> FALSE, cut2 |-> SelSeq(g, odd)], [nilcut |-> FALSE, cut2 |-> SelSeq(g, even)]}
+                  \cup {[nilcut |-> FALSE, cut2 |-> <<g[j]>>] : j \in Idx(g)}
+RocCases == IF Family # "roc" THEN {} ELSE
+            UNION {{[y |-> k.x, w |-> k.w, nilw |-> k.nilw, cl |-> cl, nilcut |-> cv.nilcut, cut2 |-> cv.cut2]
+                    : cl \in {b \in [Idx(k.x) -> BOOLEAN] : PosW(b, k.w) > 0 /\ NegW(b, k.w) > 0}, cv \in CutVariants(k.x)}
+                   : k \in UniCases}
+Rev(s) == [i \in Idx(s) |-> s[Len(s) + 1 - i]]
+Distinct(y) == SelSeq([i \in Idx(y) |-> IF i = 1 \/ y[i] # y[i - 1] THEN 2 * y[i] ELSE Inf2], LAMBDA v : v # Inf2)
+RocRec(k) ==
+    LET y == k.y cl == k.cl w == k.w
+        asc2 == IF k.nilcut THEN Distinct(y) \o <<Inf2>> ELSE k.cut2
+        thr2 == Rev(asc2)
+        ge == [tpr |-> [i \in Idx(thr2) |-> IF thr2[i] = Inf2 THEN <<0, 1>> ELSE TprGe(R(thr2[i], 2), y, cl, w)],
+               fpr |-> [i \in Idx(thr2) |-> IF thr2[i] = Inf2 THEN <<0, 1>> ELSE FprGe(R(thr2[i], 2), y, cl, w)]]
+        gt == [tpr |-> [i \in Idx(thr2) |-> IF thr2[i] = Inf2 THEN <<0, 1>> ELSE TprGt(R(thr2[i], 2), y, cl, w)],
+               fpr |-> [i \in Idx(thr2) |-> IF thr2[i] = Inf2 THEN <<0, 1>> ELSE FprGt(R(thr2[i], 2), y, cl, w)]]
+    IN [fam |-> "roc", y |-> y, cl |-> cl, w |-> w, nilw |-> k.nilw, nilcut |-> k.nilcut, cut2 |-> k.cut2,
+        thr2 |-> thr2,
+        \* with explicit cutoffs the doc comment states both "y >= thresh" and "greater than the cutoff"
+        alts |-> IF k.nilcut THEN <<ge>> ELSE <<ge, gt>>,
+        tocmin |-> [i \in 1 .. Len(y) + 1 |-> TocMin(cl, w, i - 1)],
+        tocntp |-> [i \in 1 .. Len(y) + 1 |-> TocNtp(cl, w, i - 1)],
+        tocmax |-> [i \in 1 .. Len(y) + 1 |-> TocMax(cl, w, i - 1)]]
+
+(******************************* family "sort" ******************************)
+\* unsorted x; the weights are identity tags 11, 12, ... so that the bag of
+\* (x, w, label) triples determines the rearrangement up to the order of ties
+SortCases == IF Family # "sort" THEN {} ELSE
+             UNION {{[x |-> x, nilw |-> a, nill |-> b, pat |-> pt] : x \in AllSeqs(n), a \in BOOLEAN, b \in BOOLEAN, pt \in {2, 3}}
+                    : n \in MinN .. MaxN}
+SortRec(k) ==
+    LET x == k.x w == [i \in Idx(x) |-> 10 + i] l == [i \in Idx(x) |-> IF i % k.pat = 1 THEN 1 ELSE 0] IN
+    [fam |-> "sort", x |-> x, w |-> w, l |-> l, nilw |-> k.nilw, nill |-> k.nill,
+     sx |-> SortedOf(x),
+     \* the bag of (x, weight tag, label) triples, listed in input order (compared as a bag)
+     triples |-> [i \in Idx(x) |-> <<x[i], IF k.nilw THEN 0 ELSE w[i], IF k.nill THEN 0 ELSE l[i]>>]]
+
+(******************************* family "chi" *******************************)
+ChiCases == IF Family # "chi" THEN {} ELSE
+            UNION {{k \in [ob : [1 .. n -> AlphaEnc], ex : [1 .. n -> AlphaEnc]] : \A i \in 1 .. n : k.ex[i] > 0 \/ k.ob[i] = 0}
+                   : n \in MinN .. MaxN}
+ChiRec(k) == [fam |-> "chi", ob |-> k.ob, ex |-> k.ex, chi |-> ChiSquare(k.ob, k.ex), sc |-> Pow(SetMax(AlphaEnc) + 1, 2)]
+
 (********************************* driver ***********************************)
 Cases == CASE Family = "uni"  -> {k \in UniCases : InShard(k.x, k.w)}
            [] Family = "ord"  -> {k \in OrdCases : InShard(k.x, k.w)}
            [] Family = "hist" -> {k \in HistCases : InShard(k.x \o k.d, k.w \o k.d)}
            [] Family = "ks"   -> {k \in KsCases : InShard(k.x \o k.y, k.wx \o k.wy)}
+           [] Family = "bi"   -> {k \in BiCases : InShard(k.x \o k.y, k.w \o k.w)}
+           [] Family = "mat"  -> {k \in BiCases : InShard(k.x \o k.y, k.w \o k.w)}
+           [] Family = "roc"  -> {k \in RocCases : InShard(k.y, k.w)}
+           [] Family = "sort" -> SortCases
+           [] Family = "chi"  -> ChiCases
 
 Rec(k) == CASE Family = "uni"  -> UniRec(k)
             [] Family = "ord"  -> OrdRec(k)
             [] Family = "hist" -> HistRec(k)
             [] Family = "ks"   -> KsRec(k)
+            [] Family = "bi"   -> BiRec(k)
+            [] Family = "mat"  -> MatRec(k)
+            [] Family = "roc"  -> RocRec(k)
+            [] Family = "sort" -> SortRec(k)
+            [] Family = "chi"  -> ChiRec(k)
 
 Init == c \in Cases
 Next == UNCHANGED c
